@@ -629,6 +629,9 @@ func c03(c *Ctx) {
 	pooledObjectsReset(c, "pooled-object-reset", "services", "listener", "server")
 	c03LimiterState(c)
 	c03MemoKeyExact(c)
+	// a lock of the shared service object that one client's input leaves held (a panic inside a critical section whose Unlock
+	// is not deferred – the dispatcher recovers) decides what every later client gets (shared with C09/C01)
+	c09LockRelease(c)
 	c03SharedLockNotHeldAcrossClientIO(c)
 	// the goroutine that serves a connection works on that connection: no goroutine started in a loop of the listeners or
 	// the server reads a variable the loop assigns again (shared with C08)
